@@ -89,7 +89,9 @@ def operand_alphabet(w):
         A += [g.MEM(ad, w), g.MEM(ad, w, g.ID('ds', 16)),
               g.CO((g.SL(a, 0, 4), 0, 4), (g.SL(b, 4, w), 4, w)),
               g.SL(g.CO((a, 0, w), (b, w, 2 * w)), 4, 4 + w) if 2 * w <= 64 else g.OP('>>', a, b),
-              g.OP('<<', a, g.I(w, 1)), ('id', 'eax', w, False, True)]
+              g.OP('<<', a, g.I(w, 1)), ('id', 'eax', w, False, True),
+              g.CO((g.SL(a, 0, 4), 0, 4), (g.SL(a, 4, w // 2), 4, w // 2), (g.SL(b, w // 2, w), w // 2, w)) if w > 8
+              else g.CO((g.SL(a, 0, 4), 0, 4), (g.SL(a, 4, 7), 4, 7), (g.SL(b, 7, 8), 7, 8))]
     return A
 
 
@@ -141,6 +143,32 @@ def order_case(part, op, ms, H):
                            'expr_simp(%s) = %s but expr_simp(%s) = %s' % (irsem.show(first[0]), first[1][0], irsem.show(v), r[0]),
                            {'law': 'order', 'op': op, 'operands': list(ms)}, sum(irsem.size_nodes(x) for x in ms))
             return
+    # the same permutations built over SHARED operand objects and simplified one after the other: a simplifier that
+    # rewrites a node of its input in place gives a different form the second time the operand is used
+    if first is not None:
+        memo = {}
+
+        def shared(t):
+            if t not in memo:
+                memo[t] = irsem.from_neutral(t)
+            return memo[t]
+        X = irsem.X()
+        for perm in sorted(set(itertools.permutations(ms)), key=repr):
+            try:
+                with core.watchdog(5):
+                    s = H.expr_simp(X.ExprOp(op, *[shared(x) for x in perm]))
+                    r = (str(s), irsem.to_neutral(s))
+            except Exception as ex:
+                part.skip('simplifier-raises:%s' % type(ex).__name__)
+                continue
+            part.n += 1
+            if r != first[1]:
+                kinds = sorted(set(kind(x) if x[0] != 'op' else 'op' + x[1] for x in ms))
+                part.violation('law=order-shared op=%s operands=%s' % (op, '+'.join(kinds)),
+                               'expr_simp(%s) = %s on fresh objects but %s when the operand objects were used in earlier calls (order %s)' % (
+                                   irsem.show(first[0]), first[1][0], r[0], irsem.show(g.OP(op, *perm))),
+                               {'law': 'order', 'op': op, 'operands': list(ms)}, sum(irsem.size_nodes(x) for x in ms))
+                return
     part.keys.add(core.h64(('o', op, repr(ms))))
     if len(part.samples) < 2 and first:
         part.samples.append({'op': op, 'operands': [irsem.show(x) for x in ms], 'variants': len(variants), 'canonical form': first[1][0]})
